@@ -57,17 +57,18 @@ func TestWorker(t *testing.T) {
 	}
 	seed, _ := strconv.ParseUint(os.Getenv("VSIM_SEED"), 10, 64)
 	cfg := core.WorkerConfig{
-		Prop:     os.Getenv("VSIM_PROP"),
-		Tier:     os.Getenv("VSIM_TIER"),
-		Seed:     seed,
-		Worker:   envInt("VSIM_WORKER", 0),
-		Workers:  envInt("VSIM_WORKERS", 1),
-		Runs:     envInt("VSIM_RUNS", 100),
-		Secs:     envInt("VSIM_SECS", 30),
-		Out:      out,
-		ShrinkS:  envInt("VSIM_SHRINK_S", 15),
-		Progress: os.Getenv("VSIM_PROGRESS"),
-		OnlyRun:  envInt("VSIM_ONLY_RUN", -1),
+		Prop:       os.Getenv("VSIM_PROP"),
+		Tier:       os.Getenv("VSIM_TIER"),
+		Seed:       seed,
+		Worker:     envInt("VSIM_WORKER", 0),
+		Workers:    envInt("VSIM_WORKERS", 1),
+		Runs:       envInt("VSIM_RUNS", 100),
+		Secs:       envInt("VSIM_SECS", 30),
+		Out:        out,
+		ShrinkS:    envInt("VSIM_SHRINK_S", 15),
+		Progress:   os.Getenv("VSIM_PROGRESS"),
+		OnlyRun:    envInt("VSIM_ONLY_RUN", -1),
+		MaxClasses: envInt("VSIM_MAX_CLASSES", 0),
 	}
 	sum := core.Worker(t, cfg)
 	ob, _ := json.Marshal(sum)
